@@ -122,6 +122,14 @@ func c07main(c *Ctx) {
 		} else {
 			slog.RemoveFlags(slog.LattrsR)
 		}
+		// Lattrs ("do print Attr key-value pairs", part of the default flags) is cleared now and then. It is documented as
+		// the switch for printing attributes at all, so a record WITHOUT any attribute is accepted under a cleared
+		// Lattrs; a record that shows attributes must show all of them, by the same rule as always
+		noLattrs := r.P(15)
+		if noLattrs {
+			slog.RemoveFlags(slog.Lattrs)
+			c.R.Add("cases_with_Lattrs_cleared", 1)
+		}
 		// chain
 		chain := []*slog.Entry{newRoot("root", f, w, slog.AlwaysLevel)}
 		own := make([][]srcKV, depth)
@@ -179,7 +187,7 @@ func c07main(c *Ctx) {
 		var keyDesc []string
 		var ctx context.Context = context.Background()
 		nkeys := 0
-		if r.P(50) {
+		if r.P(50) || idx%emptyPoolsEvery == 0 {
 			nkeys = r.Range(1, 5)
 		}
 		nilCtx := nkeys > 0 && r.P(10)
@@ -218,10 +226,21 @@ func c07main(c *Ctx) {
 		if r.P(30) {
 			ncall = r.Range(8, 64)
 		}
-		call := genSrcList(r, "call", ncall, keyspace, groups)
+		// a call wider than anything a pooled attribute slice has held so far (the case starts with emptied pools), given
+		// as plain key/value pairs
+		wide := idx%emptyPoolsEvery == 0 && r.Bool()
+		if wide {
+			ncall = r.Range(50, 140)
+			c.R.Add("wide_calls_on_fresh_pools", 1)
+		}
+		ks := keyspace
+		if wide {
+			ks = keyspace * 6 // still plenty of collisions, and enough distinct keys to stay wide after merging
+		}
+		call := genSrcList(r, "call", ncall, ks, groups && !wide)
 		var args []any
 		for _, kv := range call {
-			if !kv.isG && r.P(40) {
+			if !kv.isG && (wide || r.P(40)) {
 				args = append(args, kv.key, kv.src)
 			} else {
 				args = append(args, kv.attr())
@@ -255,7 +274,7 @@ func c07main(c *Ctx) {
 				lg.InfoContext(ctx, "probe", args...)
 			}
 		})
-		desc := map[string]any{"format": f.String(), "inherit_flag": inherit, "depth": depth, "ctx": descList(ctxList), "registered_ctx_keys": keyDesc, "nil_ctx": nilCtx, "call": descList(call), "after_recovered_panicking_record": afterDoomed}
+		desc := map[string]any{"format": f.String(), "inherit_flag": inherit, "depth": depth, "ctx": descList(ctxList), "registered_ctx_keys": keyDesc, "nil_ctx": nilCtx, "call": descList(call), "after_recovered_panicking_record": afterDoomed, "Lattrs_cleared": noLattrs}
 		for d := 0; d < depth; d++ {
 			desc[fmt.Sprintf("logger%d_attrs", d)] = descList(own[d])
 		}
@@ -281,6 +300,10 @@ func c07main(c *Ctx) {
 		}
 		if inherit && depth > 1 && len(own[depth-1]) == 0 {
 			c.R.Add("inheriting_child_without_own_attrs", 1)
+		}
+		if noLattrs && len(d.Attrs) == 0 {
+			c.R.Add("records_without_any_attribute_under_cleared_Lattrs", 1)
+			return
 		}
 		if vs := c07compare(d.Attrs, want, all); len(vs) > 0 {
 			for _, v := range vs {
